@@ -184,6 +184,7 @@ structure Tables where
   importsStrict : Bool                        -- local `from m import x`: ints bound like floats, other objects refused (true) / both skipped (false)
   importsCopied : Bool                        -- each branch of an `if` gets its own copy of `ctx.fns` / `ctx.modules` ?
   sigStrict : Bool                            -- positional-only parameters are arguments, `*args` / keyword-only / `**kw` refused ?
+  cmpStrict : Bool := true                    -- a comparison operator outside the elif chain (is, is not, in, not in): refused (true) / the link is dropped (false)
 deriving Repr
 
 /-! ## Arithmetic shared by the two semantics (kept separate per side below) -/
@@ -573,7 +574,10 @@ def isBoolSorted : SExpr → Bool
 /-- one link of a comparison chain -/
 def cmpOne (T : Tables) (op : CmpOp) (l r : SExpr) : TR (Option SExpr) :=
   match T.cmpops.lookup op with
-  | none => .ok none                                  -- no branch of the elif chain matches: nothing appended
+  | none =>
+    -- no branch of the elif chain matches: the `else` raises NotImplementedError; before that repair nothing was
+    -- appended (the link silently vanished from the chain)
+    if T.cmpStrict then .error (.refused "NotImplementedError: comparison operator") else .ok none
   | some (.rel s) =>
     if arithOk l && arithOk r then .ok (some (.rel s l r))
     else .error (.refused "TypeError: relational of a relational")
